@@ -777,14 +777,27 @@ func (r *c15rigRelay) dial(cid string) (*c15rigClient, *c15rigLink, error) {
 	if err != nil {
 		return nil, nil, err
 	}
-	select {
-	case l := <-r.links:
-		return c, l, nil
-	case <-time.After(c15rigWatchdog):
-		c.close()
-		return nil, nil, fmt.Errorf("relay: no link")
+	// The link is identified by the client's own address (what the relay saw as the peer of
+	// the accepted connection), not by arrival order: a link that was queued for a dial which
+	// gave up must never be paired with a later client.
+	me := c.conn.LocalAddr().String()
+	wd := time.After(c15rigWatchdog)
+	for {
+		select {
+		case l := <-r.links:
+			if l.down.RemoteAddr().String() == me {
+				return c, l, nil
+			}
+			atomic.AddInt64(&c15rigStaleLinks, 1)
+		case <-wd:
+			c.close()
+			return nil, nil, fmt.Errorf("relay: no link")
+		}
 	}
 }
+
+// c15rigStaleLinks counts relay links that belonged to no pending dial (evidence only).
+var c15rigStaleLinks int64
 
 // cutBrokerSide makes the broker's read on this connection see EOF (FIN), now.
 func (l *c15rigLink) cutBrokerSide() {
